@@ -188,9 +188,9 @@ func (e *Env) St() map[string]interface{} {
 	st := StOf(e.F.VerifSnapshot(true))
 	vol, _ := e.Disk.Snapshot()
 	st["fsz"] = len(vol) // bytes
-	if e.ExtentLimit > 0 && st["maxb"].(uint) > 0 {
+	if e.ExtentLimit > 0 && st["maxb"].(uint) > 0 && e.ExtentLimit > st["maxb"].(uint) {
 		// after a shrink the file may stay as large as it was: the bound is the larger of the
-		// extent at that time and the new limit
+		// extent at that time and the limit
 		st["maxb"] = e.ExtentLimit
 	}
 	st["ovf"] = e.EverOverflow
